@@ -1,15 +1,54 @@
-(* C08 - The header-style control parser drops no content; duplicates merge
-   losslessly (partial: conservation is proved at the level of characters for the
-   cutting of the text into lines and into header lines / separator / body, and for
-   every path that stores the whole text under "unknown"; the merge of repeated names
-   is proved for single-line values; that every *word* of a header line reaches a name
-   or a value goes through the model of the standard email package and is decided by
-   co-execution and by the executable statement). *)
+(* C08 - The header-style control parser drops no content; duplicates merge losslessly.
+   Proved: cutting a text into paragraphs loses no word; cutting a paragraph into lines, and the
+   lines into header lines / separator / body, loses no character; a paragraph that cannot be
+   read as fields is returned whole under "unknown"; for a paragraph read as fields, the words
+   after the colon of every declaration line and the words of every continuation line are exactly
+   the words of the parsed values, every parsed name is a key of the mapping (lower-cased), every
+   word of every value - merged or not, single-line or multi-line - is found under its key, and
+   the words of the body are found under "unknown"; repeated names with single-line values keep
+   every distinct value under the first occurrence, LF-separated, in order of first appearance.
+   (partial: the "From " envelope-line corner - a trailing "From " line is pushed back into the body
+   by the standard parser - is excluded by hypothesis in the paragraph theorem and decided by
+   co-execution; the standard email package itself is an environment model.) *)
 From Coq Require Import String.
 From Coq Require Import NArith List Bool.
-From DI Require Import Result PyStr Email Debcon DebconFacts.
+From DI Require Import Result PyStr Email Debcon DebconFacts WordFacts ConserveFacts HeaderWords.
 Import ListNotations.
 Open Scope N_scope.
+
+(* cutting the text into paragraphs loses no word (the separators hold white space only) *)
+Theorem C08_paragraph_cut_keeps_words : forall t, flat_map words (split_in_paragraphs t) = words t.
+Proof. exact split_in_paragraphs_words. Qed.
+Print Assumptions C08_paragraph_cut_keeps_words.
+
+(* a paragraph read as fields: every word reaches the mapping *)
+Theorem C08_every_word_reaches_the_mapping : forall t,
+  let m := parse_message t in
+  let d := get_paragraph_data t in
+  t <> [] -> m_items m <> [] -> m_defects m = false -> m_unixfrom m = false -> m_container m = false ->
+  Forall no_from (header_lines t) ->
+  flat_map (fun kv : str * str => words (snd kv)) (m_items m) = flat_map hl_words (header_lines t) /\
+  (forall n v, In (n, v) (m_items m) ->
+     incl (words v) (words (lookup (mkey n) d)) /\ dict_get (mkey n) d <> None) /\
+  incl (words (m_payload m)) (words (lookup unknown_key d)).
+Proof. exact paragraph_words. Qed.
+Print Assumptions C08_every_word_reaches_the_mapping.
+
+(* the merge loop, any values: stored words only grow, every value's words are stored under its key *)
+Theorem C08_merge_keeps_words : forall items data,
+  (forall k0, incl (words (lookup k0 data)) (words (lookup k0 (merge_items items data)))) /\
+  (forall n v, In (n, v) items -> incl (words v) (words (lookup (mkey n) (merge_items items data)))).
+Proof. exact merge_items_words. Qed.
+Print Assumptions C08_merge_keeps_words.
+
+(* the words of the items are exactly the words of the header lines *)
+Theorem C08_header_lines_to_items : forall hs, Forall no_from hs -> Forall ends_ws (removelast hs) ->
+  h_defect (parse_headers hs) = false ->
+  flat_map (fun kv : str * str => words (snd kv)) (rev (h_items (parse_headers hs))) = flat_map hl_words hs /\
+  h_unixfrom (parse_headers hs) = false /\ h_pushback (parse_headers hs) = None.
+Proof. exact parse_headers_words. Qed.
+Print Assumptions C08_header_lines_to_items.
+
 
 (* cutting the text into lines loses nothing *)
 Theorem C08_lines_conserve_text : forall t, concat (crack t) = t.
